@@ -57,13 +57,13 @@ macro_rules! uniform_event {
 pub fn run(args: &Args) {
     let mut tr = Tr::create(&args.out);
     let mut rng = Rng::new(args.seed ^ 0x16);
-    let n1: Vec<usize> = if args.thorough { vec![16, 64, 256, 1024, 4096] } else { vec![64, 256] };
+    let n1: Vec<usize> = if args.thorough { vec![16, 64, 256, 1024, 4096] } else { vec![64, 256, 1024] };
     for fu in functionals(args.thorough) {
         let sig = if fu.name.starts_with("FMT") { 1.0 } else { 3.5 };
         for (sname, bulk) in bulk_states(&fu) {
             for &n in &n1 {
                 for lz in [None, Some(1)] {
-                    if !args.thorough && rng.below(2) == 0 { continue; }
+                    
                     let len = Length::from_reduced(sig * rng.range(8.0, 25.0));
                     for kind in ["cartesian", "spherical", "polar"] {
                         let axis = match kind { "cartesian" => Axis::new_cartesian(n, len, None), "spherical" => Axis::new_spherical(n, len), _ => Axis::new_polar(n, len) };
@@ -75,7 +75,7 @@ pub fn run(args: &Args) {
                 }
             }
             // 2-D and 3-D grids (small)
-            if !args.thorough && rng.below(3) != 0 { continue; }
+            
             let l = Length::from_reduced(sig * 10.0);
             let nn = if args.thorough { 32 } else { 16 };
             let ax = |n: usize| Axis::new_cartesian(n, l, None);
